@@ -82,6 +82,7 @@ func PrepareC04(ctx *Ctx) (*Prepared, error) {
 			n := shardCount(hints.cost(ctx, j.Funcs[0]))
 			for i := 0; i < n; i++ {
 				sj := *j
+				sj.Meta = map[string]string{"evolution": pr.Kind, "context": pr.Context}
 				if n > 1 {
 					sj.Name += fmt.Sprintf(" #%d/%d", i, n)
 					sj.Opt.ShardN, sj.Opt.ShardI, sj.Opt.ShardDepth = n, i, shardDepth
